@@ -6,6 +6,7 @@ import math
 import numpy as np
 
 from ..common import Ctx, driver_batch, f2b, fmat, fvec, vec
+from . import c11_r3 as r3
 
 # (declarations for the runner follow the helpers)
 
@@ -200,11 +201,14 @@ LEVEL_TEXT = (
     "(incl. the loop body) are translated statement by statement (harness/translate/localgrid.py -> Gen/LocalGrid.lean, "
     "regenerated on every run) and proved equal to the hand model (gen_init_eq, gen_pquery_eq, ...), so the theorems hold "
     "for the generated text; the driver executes the generated definitions, compared with the implementation on random lattices "
-    "(dims 1..3, K = 0..dim, skewed/negative/long/short, wrapped or not, points outside the cell, far centres)."
+    "(dims 1..3, K = 0..dim, skewed/negative/long/short, wrapped or not, points outside the cell, far centres). "
+    "The constructor's warning block (the hard-coded 1.1) is translated separately (harness/translate/periodicgrid_init.py -> "
+    "Gen/PeriodicGridInit.lean): it never raises, warns exactly when two stored points differ by more than 11/10 in a fractional "
+    "coordinate, never with wrap=True, and without it get_localgrid tries at most 2r/s + 21/10 translations per lattice direction."
 )
 TECHNIQUE = "Lean 4 proof (Cauchy-Schwarz box bound, product-of-ranges enumeration) + differential runs + brute-force image enumeration"
-GEN = ["localgrid"]
-LEAN_MODULES = ["GridVerif.Props.C11", "GridVerif.Props.C11.Gen"]
+GEN = ["localgrid", "periodicgrid_init"]
+LEAN_MODULES = ["GridVerif.Props.C11", "GridVerif.Props.C11.Gen", "GridVerif.Props.C11.Warn"]
 THEOREMS = [
     "GridVerif.C11.ilc_in_box",
     "GridVerif.C11.periodic_complete",
@@ -243,12 +247,24 @@ THEOREMS = [
     "GridVerif.C11.gen_getLocalgrid_spec",
     "GridVerif.C11.gen_periodic_localgrid_correct",
     "GridVerif.C11.gen_periodic_getitem_spec",
+    # third round: the warning block of the constructor (Gen/PeriodicGridInit.lean, translated by
+    # harness/translate/periodicgrid_init.py) — window of the hard-coded 1.1, "never when wrap==True"
+    "GridVerif.C11.gen_init_warning_site",
+    "GridVerif.C11.gen_init_warning_total",
+    "GridVerif.C11.gen_init_warning_eq",
+    "GridVerif.C11.gen_init_warning_iff",
+    "GridVerif.C11.construct_intervals_attained",
+    "GridVerif.C11.gen_init_warning_spec",
+    "GridVerif.C11.gen_wrap_never_warns",
+    "GridVerif.C11.gen_nowarn_range_small",
 ]
 RULE = (
     "one evaluation = one operation (constructor incl. wrapping, get_localgrid, points=, weights=, __getitem__) run on "
     "PeriodicGrid and on the Lean model (entries sorted by (integer translation, parent index); integers exact, floats "
     "rtol 1e-11 of the lattice scale); non-trivial = a query on a grid with >= 1 lattice vector whose result holds "
-    ">= 2 distinct translations, or any query on a skewed/negative lattice (hash of the whole line)"
+    ">= 2 distinct translations, or any query on a skewed/negative lattice (hash of the whole line); the constructor's "
+    "warning (PeriodicGridWarning yes/no, category, attribution to the caller) is compared with the generated warning block; "
+    "rejected constructor calls are compared by exception class"
 )
 TRUSTED_BASE = [
     "Lean 4.33 kernel; axioms propext, Classical.choice, Quot.sound only (audited per theorem)",
@@ -256,11 +272,13 @@ TRUSTED_BASE = [
     "hand model Model/Periodic.lean of PeriodicGrid (proved equal to the generated definitions)",
     "duality contract of the reciprocal vectors (np.linalg.svd pseudo-inverse), checked numerically on every generated lattice",
     "contract of scipy cKDTree.query_ball_point; NumPy indexing, itertools.product order",
+    "translator harness/translate/periodicgrid_init.py (the warning block of the constructor -> Gen/PeriodicGridInit.lean; vocabulary Model/PeriodicInitPy.lean); it checks that the block reads only the value just assigned to self._frac_intvls",
 ]
 ASSUMPTIONS = [
     "exact real arithmetic: ties at distance == radius and fractional coordinates on a cell boundary under rounding are outside the claim (generated inputs keep a relative margin)",
     "radius is finite (the class rejects inf and nan for every number of lattice vectors)",
-    "lattice vectors comfortably non-singular (the SVD singularity threshold is not modelled)",
+    "lattice vectors comfortably non-singular (the SVD singularity threshold is pinned text of the translator and is not part of "
+    "the model; the oracle samples sigma_min/sigma_max at 1/100, 1/1.01, 1.01, 100 times eps*max(shape): rejected / accepted)",
 ]
 
 RTOL = 1e-11
@@ -330,17 +348,8 @@ def _ivec_of(tok):
 
 def recover_ilc(parent_pts, lg, a):
     """Integer translation of every local point: stored = parent - ilc @ a.  -> list of tuples, ok"""
-    d = a.shape[1]
-    idx = np.asarray(lg.indices, dtype=int)
-    lp = _rows(lg.points, d)
-    pp = _rows(parent_pts, d)
-    if len(a) == 0:
-        return [() for _ in idx], bool(len(idx) == 0 or np.allclose(pp[idx], lp, rtol=0, atol=1e-9))
-    b = np.linalg.pinv(a).T
-    coef = (pp[idx] - lp) @ b.T if len(idx) else np.zeros((0, len(a)))
-    ilc = np.rint(coef)
-    ok = bool(np.all(np.abs(coef - ilc) < 1e-6)) and (len(idx) == 0 or np.allclose(pp[idx] - ilc @ a, lp, rtol=0, atol=1e-8 * (1 + np.abs(pp).max())))
-    return [tuple(int(v) for v in row) for row in ilc], ok
+    # (tolerances relative to the magnitude of the translations: centres may be 1e9 cells away)
+    return r3.recover_far(parent_pts, lg, a, a.shape[1])
 
 
 def _query_args(rng, g, a, d, oned, margin=1.0):
@@ -386,6 +395,12 @@ def _query_args(rng, g, a, d, oned, margin=1.0):
         want, r = brute_images(pts, a, c, r, scale=scale, zero_tie_ok=(len(a) == 0), margin=margin)
         robj = np.float64(r) if rk == "f64" else r
     cc, ck = _centre_obj(rng, float(c[0]) if oned else c, oned)
+    cb, kb = r3.centre_bool(rng, cc, c, oned)          # (third round: bool centres, 0-d / float16 / bool radii)
+    if kb:
+        cc, ck = cb, kb
+    if type(robj) is float and r > 0 and rng.random() < 0.2:
+        robj, rkk = r3.radius_obj(rng, r)
+        return cc, c, robj, r, want, how + ":" + ck + ":" + rkk
     return cc, c, robj, r, want, how + ":" + ck + ":" + type(robj).__name__
 
 
@@ -407,18 +422,28 @@ def corr(ctx: Ctx):
     from .c10 import _clone, _descr, _index, _py_select
     M = _mods()
     PG = M["periodicgrid"].PeriodicGrid
+    PGW = M["periodicgrid"].PeriodicGridWarning
     LG = M["basegrid"].LocalGrid
     rng = ctx.rng
     ncase = ctx.n(3400, 34000)
     cases, lines = [], []
+    bad_cases, bad_lines = [], []
+    last_warn = [None]
+
+    def warn_obs(rec):
+        """What the constructor's warning block did: (number of PeriodicGridWarnings, category name, attributed to this
+        file — i.e. to the caller of the constructor —, number of other warnings)."""
+        w = [x for x in rec if issubclass(x.category, PGW)]
+        return (len(w), w[0].category.__name__ if w else "", bool(w) and w[0].filename == __file__, len(rec) - len(w))
 
     def build(args):
         """A new object from new array objects holding the arguments (the caller's own arrays: with
         wrap=False the grid keeps them, and a same-object reassignment edits them — legitimately)."""
         pin, win = _clone(args["points"]), _clone(args["weights"])
-        with warnings.catch_warnings():
-            warnings.simplefilter("ignore")
+        with warnings.catch_warnings(record=True) as rec:
+            warnings.simplefilter("always")
             g = PG(pin, win, args["realvecs"], wrap=args["wrap"])
+        last_warn[0] = warn_obs(rec)
         if not np.array_equal(pin, args["points"]) or not np.array_equal(win, args["weights"]):
             ctx.fail("corr", "construct:caller-array", "the caller's points/weights array was modified by the constructor (wrap)",
                      witness={"points": args["points"], "realvecs": args["realvecs"], "wrap": args["wrap"]})
@@ -433,7 +458,24 @@ def corr(ctx: Ctx):
             return ("E", _errtag(e))
 
     for ci in range(ncase):
-        args = periodic_args(rng)
+        if ci % 40 == 39:
+            # rejected constructor calls: the generated constructor must reject them with the same exception class
+            bp, bw, brv, bwrap, boned, bd, bwhat = r3.bad_ctor_args(rng)
+            try:
+                with warnings.catch_warnings():
+                    warnings.simplefilter("ignore")
+                    PG(bp, bw, brv, wrap=bwrap)
+                tag_ = "accepted"
+            except Exception as e:  # noqa: BLE001
+                tag_ = _errtag(e)
+            brows = np.asarray(brv, dtype=float).reshape(-1, 1) if boned else np.asarray(brv, dtype=float)
+            bcols = brows.shape[1] if brows.ndim == 2 and len(brows) else bd
+            bad_cases.append((tag_, bwhat, f"PeriodicGrid({_arr_text(bp)}, {_arr_text(bw)}, {_arr_text(brv)}, wrap={bwrap})"))
+            bad_lines.append(f"C11.hist {int(boned)} {bd} {_fm(bp, bd)} {fvec(bw)} {_fm(brows, bcols)} {_fm(np.zeros_like(brows), bcols)} {int(bwrap)} 0")
+            continue
+        args = r3.special_args(rng, periodic_args, lattice) if rng.random() < 0.22 else None
+        if args is None:
+            args = periodic_args(rng)
         d, oned = args["d"], args["oned"]
         orig = np.array(args["points"], copy=True)
         try:
@@ -449,8 +491,10 @@ def corr(ctx: Ctx):
 
         def obs_c(g):
             return ("C", np.array(g.points, copy=True), np.array(g.recivecs, copy=True), np.array(g.spacings, copy=True),
-                    np.array(g.frac_intvls, copy=True))
+                    np.array(g.frac_intvls, copy=True), last_warn[0])
         obs = [obs_c(g)]
+        if args.get("r3"):
+            ctx.tagc("r3:" + args["r3"])
         ops = []
         toks, nontriv = [], False
         text = [f"g = PeriodicGrid({_arr_text(args['points'])}, {_arr_text(args['weights'])}, {_arr_text(args['realvecs'])}, wrap={args['wrap']})"]
@@ -460,7 +504,15 @@ def corr(ctx: Ctx):
             k = rng.choice(["q", "q", "q", "q", "sp", "sw", "gi"])
             n = len(g.weights)
             if k == "q":
-                cc, c, robj, r, want, how = _query_args(rng, g, a, d, oned, margin)
+                sq = r3.special_query(rng, g, a, d, oned, thorough=ctx.thorough) if (len(a) and margin == 1.0 and rng.random() < 0.1) else None
+                if sq is not None:
+                    c, r, want, how, _m = sq
+                    from .c10 import _centre_obj
+                    cc, ck = _centre_obj(rng, float(c[0]) if oned else c, oned)
+                    robj, rkk = r3.radius_obj(rng, r)
+                    how = how + ":" + ck + ":" + rkk
+                else:
+                    cc, c, robj, r, want, how = _query_args(rng, g, a, d, oned, margin)
                 bad = rng.random() < 0.05
                 if bad:
                     r = rng.choice([-1.0, math.nan, math.inf, -math.inf])
@@ -488,7 +540,7 @@ def corr(ctx: Ctx):
                 elif how == "permute":
                     new = old[::-1].copy()
                 else:
-                    new = old + np.array([rng.uniform(-1.5, 1.5) for _ in range(old.size)]).reshape(old.shape)
+                    new = old + np.array([rng.uniform(-1.5, 1.5) for _ in range(old.size)]).reshape(old.shape) * args.get("scale_factor", 1.0)
                 bad = rng.random() < 0.08
                 if bad:
                     new = np.concatenate([new, new[:1]])
@@ -529,10 +581,12 @@ def corr(ctx: Ctx):
                 ctx.tagc("getitem:" + ik)
 
                 def op(g, idx=idx):
-                    sub = g[idx]
+                    with warnings.catch_warnings(record=True) as rec:
+                        warnings.simplefilter("always")
+                        sub = g[idx]
                     if type(sub) is not PG or not np.array_equal(np.asarray(sub.realvecs), np.asarray(g.realvecs)):
                         return ("X", "selection is not a PeriodicGrid with the same lattice")
-                    return ("G", np.array(sub.points), np.array(sub.weights), np.array(sub.frac_intvls))
+                    return ("G", np.array(sub.points), np.array(sub.weights), np.array(sub.frac_intvls), warn_obs(rec)[:2])
             ops.append(op)
             o = observe(op, g)
             obs.append(o)
@@ -559,6 +613,11 @@ def corr(ctx: Ctx):
         d = args["d"]
         rt = args["rtol"]
         scale = max(1.0, float(np.abs(_rows(obs[0][1], d)).max())) if len(obs[0][1]) else 1.0
+        sscale = rscale = 1.0
+        if args.get("scale_factor"):
+            # a scaled configuration: tolerances relative to the magnitudes that occur, not to 1
+            scale = float(np.abs(_rows(obs[0][1], d)).max()) or float(args["scale_factor"])
+            sscale, rscale = float(np.abs(obs[0][3]).max()), float(np.abs(obs[0][2]).max())
         tagbase = f"d{d}:k{len(a)}:" + ("wrap" if args["wrap"] else "nowrap") + ":" + args["spread"]
         ctx.count(line, nontrivial=nontriv, tag=tagbase, n=len(obs))
         ctx.traces += 1
@@ -581,12 +640,15 @@ def corr(ctx: Ctx):
                 k = len(a)
                 if not _close_arr(_rows(o[1], d), mp.reshape(-1, d) if mp.size else np.zeros((0, d)), scale, rt):
                     what = "constructor: stored points differ (wrapping)"
-                elif not _close_arr(np.asarray(o[2], dtype=float).reshape(k, d) if k else np.zeros((0, d)), mr.reshape(k, d) if k else np.zeros((0, d)), 1.0, rt):
+                elif not _close_arr(np.asarray(o[2], dtype=float).reshape(k, d) if k else np.zeros((0, d)), mr.reshape(k, d) if k else np.zeros((0, d)), rscale, rt):
                     what = "constructor: reciprocal vectors differ"
-                elif not _close_arr(np.asarray(o[3], dtype=float).reshape(-1), ms, 1.0, rt):
+                elif not _close_arr(np.asarray(o[3], dtype=float).reshape(-1), ms, sscale, rt):
                     what = f"constructor: spacings differ: implementation {np.asarray(o[3]).tolist()}, model {ms.tolist()}"
                 elif not _close_arr(np.asarray(o[4], dtype=float).reshape(k, 2) if k else np.zeros((0, 2)), mi.reshape(k, 2) if k else np.zeros((0, 2)), scale, rt):
                     what = f"constructor: frac_intvls differ: implementation {np.asarray(o[4]).tolist()}, model {mi.tolist()}"
+                else:
+                    what = _warn_cmp(ctx, o[5], m.pop(0) if m else "W?", np.asarray(o[4], dtype=float).reshape(k, 2) if k else np.zeros((0, 2)),
+                                     bool(args.get("r3", "").startswith("threshold")), "constructor")
             elif kind == "L":
                 milc, midx, mp, mw = _imat_of(m), _ivec_of(m), _fmat_of(m), _fvec_of(m)
                 if len(a) == 0:
@@ -615,6 +677,9 @@ def corr(ctx: Ctx):
                     what = "__getitem__: selected points/weights differ"
                 elif not _close_arr(np.asarray(o[3], dtype=float).reshape(k, 2) if k else np.zeros((0, 2)), mi.reshape(k, 2) if k else np.zeros((0, 2)), scale * 30, rt):
                     what = "__getitem__: frac_intvls of the selection differ"
+                else:
+                    what = _warn_cmp(ctx, o[4] + (None, 0), m.pop(0) if m else "W?", np.asarray(o[3], dtype=float).reshape(k, 2) if k else np.zeros((0, 2)),
+                                     bool(args.get("r3", "").startswith("threshold")), "__getitem__ (constructor of the selection)")
             elif kind == "E":
                 ctx.tagc("error:" + o[1])
                 if [o[1]] != m[:1]:
@@ -624,6 +689,34 @@ def corr(ctx: Ctx):
                          f"PeriodicGrid (dim {d}, {len(a)} lattice vector(s), wrap={args['wrap']}): step {j}: {what}",
                          witness={"history": text[: j + 1], "realvecs": a, "rtol": rt})
                 break
+    for (tag_, bwhat, btext), line, ans in zip(bad_cases, bad_lines, driver_batch(bad_lines)):
+        ctx.count(line, nontrivial=False, tag="construct:rejected:" + bwhat)
+        if ans.split()[:1] != [tag_]:
+            ctx.fail("corr", "construct:rejected", f"rejected constructor call ({bwhat}): implementation {tag_}, generated constructor {ans[:40]}",
+                     witness={"history": ["g = " + btext]})
+
+
+def _warn_cmp(ctx, impl, model, iv, exact, where):
+    """The constructor's warning block: implementation (number of PeriodicGridWarnings, category, attributed to the caller,
+    other warnings) against the generated block run by the driver (`W0` / `W1:<category>:<stacklevel>` / `WE:<error>` / `WU`).
+    Next to the threshold (rounded fractional coordinates) either answer is accepted unless the data is exact."""
+    n, cat, caller, other = impl
+    width = float((iv[:, 1] - iv[:, 0]).max()) if len(iv) else 0.0
+    ctx.tagc("ctor-warning:" + ("yes" if n else "no"))
+    if other:
+        return f"{where}: {other} warning(s) of another category"
+    if not exact and abs(width - 1.1) <= 1e-7:
+        return None
+    if model == "W0":
+        return None if n == 0 else f"{where}: implementation issued {n} {cat}(s) (widest interval {width!r}), the generated block none"
+    if model.startswith("W1:"):
+        _, mcat, lvl = model.split(":")
+        if n != 1 or cat != mcat:
+            return f"{where}: implementation issued {n} warning(s) {cat} (widest interval {width!r}), the generated block one {mcat}"
+        if caller is not None and caller != (lvl == "2"):
+            return f"{where}: the warning is {'not ' if not caller else ''}attributed to the caller of the constructor, the generated block has stacklevel={lvl}"
+        return None
+    return f"{where}: the generated warning block answers {model} (raises / leaves the modelled fragment) where the implementation constructs the object"
 
 
 def _errtag(e):
@@ -652,6 +745,9 @@ b = np.linalg.pinv(a).T if len(a) else np.zeros((0, d))
 L = np.asarray(lg.points, dtype=float).reshape(len(lg.indices), d)
 got = sorted((int(i), tuple(int(v) for v in np.rint(b @ (L[t] - P[i])))) for t, i in enumerate(lg.indices))
 assert got == want, f'(index, translation) pairs {{got}}, brute force {{want}}'
+assert np.array_equal(np.asarray(lg.weights), np.asarray(g.weights)[np.asarray(lg.indices, dtype=int)]), 'weights are not those of the parent points'
+J_ = np.array([np.rint(b @ (L[t] - P[i])) for t, i in enumerate(lg.indices)]).reshape(len(L), len(a))
+assert np.allclose(L, P[np.asarray(lg.indices, dtype=int)] + J_ @ a, rtol=0, atol=1e-8 * (1 + np.abs(P).max()) + 16 * np.spacing(np.abs(L).max() if len(L) else 1.0)), 'stored positions are not parent point + lattice translation'
 """
 
 
@@ -808,6 +904,10 @@ def oracle(ctx: Ctx, budget: str):
     PG, Grid = M["periodicgrid"].PeriodicGrid, M["basegrid"].Grid
     rng = ctx.rng
     _oracle_exact_ties(ctx, PG, (60 if budget == "small" else 1500) * (4 if ctx.thorough else 1))
+    # third round: exact lattices with points on cell faces / far centres / zero and denormal radii / radius = lattice
+    # length, the 1.1 warning threshold, scaled cells, integer and bool points, centres 1e9 cells away, radius / spacing
+    # ratios up to the cap, the singularity threshold, local grids modified by the caller
+    r3.oracle_r3(ctx, budget, M, periodic_args, lattice)
     n = (800 if budget == "small" else 8000) * (4 if ctx.thorough else 1)
     for ci in range(n):
         args = periodic_args(rng)
@@ -856,6 +956,7 @@ def oracle(ctx: Ctx, budget: str):
         # (e) queries, some of them after a reassignment of the points (history clause of C10
         # for this class: the image box must be the one of the current points)
         pre = ""
+        reassigned = False      # (`pre` is the whole earlier history of this object as text: the snippet replays it)
         for qi in range(rng.choice([1, 2, 3])):
             if qi == 1 and rng.random() < 0.6:
                 old = np.asarray(g.points)
@@ -867,15 +968,25 @@ def oracle(ctx: Ctx, budget: str):
                 if rng.random() < 0.4 and cur.dtype == np.float64 and cur.flags.writeable:
                     cur[...] = new          # in-place update of the grid's own array, then the same object
                     g.points = cur          # is assigned again: still a reassignment
-                    pre = f"p = g.points; p[...] = np.array({new.tolist()!r}); g.points = p"
+                    pre += f"p = g.points; p[...] = np.array({new.tolist()!r}); g.points = p\n"
                 else:
                     g.points = new
-                    pre = f"g.points = np.array({new.tolist()!r})"
+                    pre += f"g.points = np.array({new.tolist()!r})\n"
                 P = _rows(g.points, d)
+                reassigned = True
+            elif qi == 1 and rng.random() < 0.5:
+                # (setter then query, class 10) new weights after the first query: the next local grid carries them
+                neww = np.array([rng.uniform(-2, 2) for _ in range(len(g.weights))])
+                g.weights = neww
+                pre += f"g.weights = np.array({neww.tolist()!r})\n"
+                ctx.tagc("oracle:weights-setter-then-query")
             cc, c, robj, r, want, how = _query_args(rng, g, a, d, oned, margin)
+            from .c10 import _descr
+            thisq = f"g.get_localgrid({_descr(cc)}, {_descr(robj)})\n"
             box = int(max([abs(t) for _, j in want for t in j] + [0])) + 2
             snippet = SNIP.format(pre=pre, c=(float(c[0]) if oned else c.tolist()), r=r, box=box, **base)
             wit = dict(base, center=c, radius=r, expected=want[:40], reassigned=pre)
+            pre += thisq
             try:
                 with warnings.catch_warnings():
                     warnings.simplefilter("ignore")
@@ -893,7 +1004,7 @@ def oracle(ctx: Ctx, budget: str):
             if got != want or not vals_ok:
                 dup = len(set(got)) != len(got)
                 sub = "duplicate" if dup else ("images" if got != want else "values")
-                if pre and got != want:
+                if reassigned and got != want:
                     # the cause is the reassignment iff a fresh object with the same points answers correctly
                     try:
                         with warnings.catch_warnings():
